@@ -55,8 +55,14 @@ Proof.
   rewrite <- (app_nil_r (offset_iso m)). apply scan_offset_iso. exact H.
 Qed.
 
-Lemma offset_iso_head m : head_is 90 (offset_iso m) = false.
-Proof. unfold offset_iso. cbn [head_is]. destruct (m <? 0); reflexivity. Qed.
+Lemma offset_iso_not_nil m : is_nil (offset_iso m) = false.
+Proof. reflexivity. Qed.
+
+Lemma offset_iso_not_Z m : is_Z_only (offset_iso m) = false.
+Proof.
+  unfold offset_iso. destruct (zpad 2 (Z.abs m / 60) ++ [58] ++ zpad 2 (Z.abs m mod 60));
+    destruct (m <? 0); reflexivity.
+Qed.
 
 (** ---- scanning what the printers write ---- *)
 Lemma date_iso_app d r :
@@ -131,13 +137,13 @@ Proof.
   destruct o as [m|].
   - cbn [valid_off] in Ho. assert (Hm : -1440 < m < 1440) by lia.
     rewrite (scan_time_iso t (offset_iso m) Ht (tz_start_offset m)).
-    rewrite match_Z_head, offset_iso_head.
+    rewrite match_Z_nil, offset_iso_not_nil, offset_iso_not_Z.
     destruct (offset_roundtrip m Hm) as [Hs Hmm]. rewrite Hs, Hmm.
     unfold mk_datetime. rewrite (usec_of_iso t Ht).
     destruct t as [h mi' s u]. cbn [hr mi se us]. rewrite Hv. reflexivity.
   - rewrite (scan_time_iso t [] Ht I).
     unfold mk_datetime. rewrite (usec_of_iso t Ht).
-    destruct t as [h mi' s u]. cbn [hr mi se us scan_offset]. rewrite Hv. reflexivity.
+    destruct t as [h mi' s u]. cbn [hr mi se us]. rewrite Hv. reflexivity.
 Qed.
 
 (** ---- 3. time and date round trips ---- *)
@@ -178,22 +184,20 @@ Qed.
 
 (** ---- the timezone part of the XSD recognisers ---- *)
 Lemma xs_tz_eq s : xs_tz s =
-  match s with
-  | [] => Some None
-  | c :: r =>
-      if c =? 90 then match r with [] => Some (Some 0) | _ => None end
-      else match scan_offset s with
-           | Some (neg, h, m, []) =>
-               if ((h <=? 13) && (m <=? 59)) || ((h =? 14) && (m =? 0))
-               then Some (Some (offset_minutes neg h m)) else None
-           | _ => None
-           end
-  end.
+  if is_nil s then Some None
+  else if is_Z_only s then Some (Some 0)
+  else match scan_offset s with
+       | Some (neg, h, m, []) =>
+           if ((h <=? 13) && (m <=? 59)) || ((h =? 14) && (m =? 0))
+           then Some (Some (offset_minutes neg h m)) else None
+       | _ => None
+       end.
 Proof.
-  destruct s as [|c r]; [reflexivity|].
+  destruct s as [|c r]; [reflexivity|]. cbn [is_nil].
   destruct (c =? 90) eqn:E.
   - apply Z.eqb_eq in E. subst c. destruct r; reflexivity.
-  - unfold xs_tz. destruct c as [|p|p]; try reflexivity.
+  - assert (Hr : is_Z_only (c :: r) = false) by (destruct r; [exact E|reflexivity]).
+    rewrite Hr. unfold xs_tz. destruct c as [|p|p]; try reflexivity.
     do 8 (try (destruct p as [p|p|]; try reflexivity)). discriminate E.
 Qed.
 
@@ -201,8 +205,8 @@ Lemma xs_tz_offset_iso m : -840 <= m <= 840 -> xs_tz (offset_iso m) = Some (Some
 Proof.
   intros H. rewrite xs_tz_eq.
   assert (Hm : -1440 < m < 1440) by lia.
+  rewrite offset_iso_not_nil, offset_iso_not_Z.
   destruct (offset_roundtrip m Hm) as [Hs Hmm]. rewrite Hs, Hmm.
-  pose proof (offset_iso_head m) as Hh. unfold offset_iso in *. cbn [head_is] in Hh. rewrite Hh.
   replace (((Z.abs m / 60 <=? 13) && (Z.abs m mod 60 <=? 59))
            || ((Z.abs m / 60 =? 14) && (Z.abs m mod 60 =? 0))) with true by lia.
   reflexivity.
@@ -242,8 +246,8 @@ Lemma xs_tz_offset_iso_out m : -1440 < m < 1440 -> ~ (-840 <= m <= 840) ->
   xs_tz (offset_iso m) = None.
 Proof.
   intros Hm H. rewrite xs_tz_eq.
+  rewrite offset_iso_not_nil, offset_iso_not_Z.
   destruct (offset_roundtrip m Hm) as [Hs Hmm]. rewrite Hs.
-  pose proof (offset_iso_head m) as Hh. unfold offset_iso in *. cbn [head_is] in Hh. rewrite Hh.
   replace (((Z.abs m / 60 <=? 13) && (Z.abs m mod 60 <=? 59))
            || ((Z.abs m / 60 =? 14) && (Z.abs m mod 60 =? 0))) with false by lia.
   reflexivity.
@@ -333,15 +337,13 @@ Proof.
   intros H. inversion H; subst v. clear H.
   assert (Hu : usec_of f = u).
   { apply usec_of_frac_value; [|exact Ef]. eapply scan_time_frac. exact Et. }
-  rewrite match_Z_head. rewrite xs_tz_eq in Eo. unfold mk_datetime. rewrite Hu.
-  destruct rest as [|c r].
-  - inversion Eo; subst o. cbn [head_is scan_offset]. rewrite Ev. reflexivity.
-  - cbn [head_is]. destruct (c =? 90) eqn:Ec.
-    + destruct r; [|discriminate]. inversion Eo; subst o. rewrite Ev. reflexivity.
-    + destruct (scan_offset (c :: r)) as [[[[neg oh] om] tl]|]; [|discriminate].
-      destruct tl; [|discriminate].
-      destruct (((oh <=? 13) && (om <=? 59)) || ((oh =? 14) && (om =? 0))); [|discriminate].
-      inversion Eo; subst o. rewrite Ev. reflexivity.
+  rewrite match_Z_nil. rewrite xs_tz_eq in Eo. unfold mk_datetime. rewrite Hu.
+  destruct (is_nil rest); [inversion Eo; subst o; rewrite Ev; reflexivity|].
+  destruct (is_Z_only rest); [inversion Eo; subst o; rewrite Ev; reflexivity|].
+  destruct (scan_offset rest) as [[[[neg oh] om] tl]|]; [|discriminate].
+  destruct tl; [|discriminate].
+  destruct (((oh <=? 13) && (om <=? 59)) || ((oh =? 14) && (om =? 0))); [|discriminate].
+  inversion Eo; subst o. rewrite Ev. reflexivity.
 Qed.
 
 Lemma time_in_lex s t : xs_time s = Some t -> time_from_unicode s = Ok t.
@@ -365,22 +367,25 @@ Proof.
   destruct (valid_date d') eqn:Ev; [|discriminate].
   intros H. inversion H; subst d'. clear H.
   rewrite (strptime_of_scan_date s d s' Ed Ev).
-  unfold scan_date_tz. rewrite Ed. cbn [obind]. rewrite match_Z_head.
-  destruct s' as [|c r]; [reflexivity|].
-  rewrite xs_tz_eq in Eo. cbn [head_is].
-  destruct (c =? 90); [rewrite Ev; reflexivity|].
+  unfold scan_date_tz. rewrite Ed. cbn [obind]. rewrite match_Z_only.
+  rewrite xs_tz_eq in Eo.
+  destruct s' as [|c r]; [reflexivity|]. cbn [is_nil] in Eo.
+  destruct (is_Z_only (c :: r)); [rewrite Ev; reflexivity|].
   destruct (scan_offset (c :: r)) as [[[[neg oh] om] tl]|]; [|discriminate].
-  cbn [obind]. rewrite Ev. reflexivity.
+  destruct tl; [|discriminate]. rewrite Ev. reflexivity.
 Qed.
 
 (** ---- 6. totality and the exact shape of the outcomes ---- *)
-(** the offset the reader derives from what follows the time *)
-Definition dt_tz (rest : text) : option Z :=
+(** what must follow the time, and the offset the reader derives from it: the end
+    of the text (naive), exactly "Z", or exactly one (+|-)hh:mm; anything else is
+    no match (the regexes end in \Z) *)
+Definition dt_tz (rest : text) : option (option Z) :=
   match rest with
-  | 90 :: _ => Some 0
+  | [90] => Some (Some 0)
+  | [] => Some None
   | _ => match scan_offset rest with
-         | Some (neg, oh, om, _) => Some (offset_minutes neg oh om)
-         | None => None
+         | Some (neg, oh, om, []) => Some (Some (offset_minutes neg oh om))
+         | _ => None
          end
   end.
 (** the fields the reader hands to datetime(...), when the regex matches *)
@@ -390,7 +395,8 @@ Definition dt_fields (s : text) : option datetime :=
   | sep :: s2 =>
       if (sep =? 84) || (sep =? 32) then
         opt (h, m, x, f, rest) <- scan_time s2;
-        Some (mkdt d (mktod h m x (usec_of f)) (dt_tz rest))
+        opt o <- dt_tz rest;
+        Some (mkdt d (mktod h m x (usec_of f)) o)
       else None
   | [] => None
   end.
@@ -407,9 +413,11 @@ Proof.
   destruct s1 as [|sep s2]; [reflexivity|].
   destruct ((sep =? 84) || (sep =? 32)); [|reflexivity].
   destruct (scan_time s2) as [[[[[h m] x] f] rest]|]; cbn [obind]; [|reflexivity].
-  unfold dt_tz. rewrite !match_Z_head.
-  destruct (head_is 90 rest); [reflexivity|].
-  destruct (scan_offset rest) as [[[[neg oh] om] tl]|]; reflexivity.
+  unfold dt_tz. rewrite !match_Z_nil.
+  destruct (is_nil rest); [reflexivity|].
+  destruct (is_Z_only rest); [reflexivity|].
+  destruct (scan_offset rest) as [[[[neg oh] om] tl]|]; [|reflexivity].
+  destruct tl; reflexivity.
 Qed.
 
 Lemma datetime_only_valueerror s e : datetime_from_unicode_iso s = Crash e -> e = ValueError.
@@ -478,4 +486,94 @@ Proof.
     destruct (scan_date_tz s) as [d|]; [|discriminate].
     destruct (valid_date d) eqn:E; [discriminate|]. intros _. split; [reflexivity|]. exists d. auto.
   - intros (-> & d & -> & ->). reflexivity.
+Qed.
+
+(** ---- 7. no trailing text is ignored (the regexes end in \Z) ---- *)
+Lemma scan_date_append s d r j : scan_date s = Some (d, r) -> scan_date (s ++ j) = Some (d, r ++ j).
+Proof.
+  unfold scan_date. intros H.
+  destruct (scan_digits 4 0 s) as [[y s1]|] eqn:Ey; cbn [obind] in H; [|discriminate].
+  destruct (scan_char 45 s1) as [s2|] eqn:E1; cbn [obind] in H; [|discriminate].
+  destruct (scan_digits 2 0 s2) as [[m s3]|] eqn:Em; cbn [obind] in H; [|discriminate].
+  destruct (scan_char 45 s3) as [s4|] eqn:E2; cbn [obind] in H; [|discriminate].
+  destruct (scan_digits 2 0 s4) as [[dd s5]|] eqn:Ed; cbn [obind] in H; [|discriminate].
+  inversion H; subst d r. clear H.
+  rewrite (scan_digits_append _ _ _ _ _ j Ey). cbn [obind].
+  rewrite (scan_char_append _ _ _ j E1). cbn [obind].
+  rewrite (scan_digits_append _ _ _ _ _ j Em). cbn [obind].
+  rewrite (scan_char_append _ _ _ j E2). cbn [obind].
+  rewrite (scan_digits_append _ _ _ _ _ j Ed). reflexivity.
+Qed.
+
+Lemma scan_time_append s h m x f r j : scan_time s = Some (h, m, x, f, r) -> tz_start j ->
+  scan_time (s ++ j) = Some (h, m, x, f, r ++ j).
+Proof.
+  unfold scan_time. intros H Hj.
+  destruct (scan_digits 2 0 s) as [[h' s1]|] eqn:Eh; cbn [obind] in H; [|discriminate].
+  destruct (scan_char 58 s1) as [s2|] eqn:E1; cbn [obind] in H; [|discriminate].
+  destruct (scan_digits 2 0 s2) as [[m' s3]|] eqn:Em; cbn [obind] in H; [|discriminate].
+  destruct (scan_char 58 s3) as [s4|] eqn:E2; cbn [obind] in H; [|discriminate].
+  destruct (scan_digits 2 0 s4) as [[x' s5]|] eqn:Ex; cbn [obind] in H; [|discriminate].
+  destruct (scan_frac s5) as [f' r'] eqn:Ef. inversion H; subst. clear H.
+  rewrite (scan_digits_append _ _ _ _ _ j Eh). cbn [obind].
+  rewrite (scan_char_append _ _ _ j E1). cbn [obind].
+  rewrite (scan_digits_append _ _ _ _ _ j Em). cbn [obind].
+  rewrite (scan_char_append _ _ _ j E2). cbn [obind].
+  rewrite (scan_digits_append _ _ _ _ _ j Ex). cbn [obind].
+  rewrite (scan_frac_append s5 f r j Ef Hj). reflexivity.
+Qed.
+
+Lemma scan_offset_append s neg h m r j : scan_offset s = Some (neg, h, m, r) ->
+  scan_offset (s ++ j) = Some (neg, h, m, r ++ j).
+Proof.
+  unfold scan_offset. destruct s as [|c s]; [discriminate|]. cbn [app].
+  destruct ((c =? 43) || (c =? 45)); [|discriminate]. intros H.
+  destruct (scan_digits 2 0 s) as [[h' s1]|] eqn:Eh; cbn [obind] in H; [|discriminate].
+  destruct (scan_char 58 s1) as [s2|] eqn:E1; cbn [obind] in H; [|discriminate].
+  destruct (scan_digits 2 0 s2) as [[m' s3]|] eqn:Em; cbn [obind] in H; [|discriminate].
+  inversion H; subst. clear H.
+  rewrite (scan_digits_append _ _ _ _ _ j Eh). cbn [obind].
+  rewrite (scan_char_append _ _ _ j E1). cbn [obind].
+  rewrite (scan_digits_append _ _ _ _ _ j Em). reflexivity.
+Qed.
+
+(** any accepted text, extended by text that cannot continue a literal (its first
+    character is not a digit, '.', 'Z', '+' or '-'), is rejected as a
+    ValidationError: nothing after the literal is silently dropped *)
+Lemma datetime_no_trailing_junk s v c junk :
+  datetime_from_unicode_iso s = Ok v ->
+  is_digit c = false -> c <> 46 -> c <> 90 -> c <> 43 -> c <> 45 ->
+  datetime_from_unicode_iso (s ++ c :: junk) = VFault.
+Proof.
+  intros H Hc H46 H90 H43 H45. unfold datetime_from_unicode_iso in *.
+  destruct (scan_date s) as [[d s1]|] eqn:Ed; [|discriminate].
+  destruct s1 as [|sep s2]; [discriminate|].
+  destruct ((sep =? 84) || (sep =? 32)) eqn:Es; [|discriminate].
+  destruct (scan_time s2) as [[[[[h m] x] f] rest]|] eqn:Et; [|discriminate].
+  rewrite (scan_date_append s d _ (c :: junk) Ed). cbn [app]. rewrite Es.
+  assert (Hj : tz_start (c :: junk)) by (split; assumption).
+  rewrite (scan_time_append s2 h m x f rest (c :: junk) Et Hj).
+  rewrite match_Z_nil in *.
+  assert (Hno : scan_offset (c :: junk) = None).
+  { unfold scan_offset. replace ((c =? 43) || (c =? 45)) with false by lia. reflexivity. }
+  destruct rest as [|c0 r0]; cbn [app is_nil] in *.
+  - assert (Hz : is_Z_only (c :: junk) = false) by (destruct junk; [cbn [is_Z_only]; lia|reflexivity]).
+    rewrite Hz, Hno. reflexivity.
+  - destruct (is_Z_only (c0 :: r0)) eqn:Ez.
+    + destruct r0; [|discriminate Ez]. cbn [is_Z_only] in Ez. apply Z.eqb_eq in Ez. subst c0.
+      reflexivity.
+    + destruct (scan_offset (c0 :: r0)) as [[[[neg oh] om] tl]|] eqn:Eo; [|discriminate].
+      destruct tl; [|discriminate].
+      assert (Hz : is_Z_only (c0 :: r0 ++ c :: junk) = false) by (destruct r0; reflexivity).
+      rewrite Hz.
+      pose proof (scan_offset_append _ _ _ _ _ (c :: junk) Eo) as Ha. cbn [app] in Ha.
+      rewrite Ha. reflexivity.
+Qed.
+
+(** in particular for what the printer writes *)
+Lemma datetime_iso_no_trailing_junk v c junk : valid_datetime v = true ->
+  is_digit c = false -> c <> 46 -> c <> 90 -> c <> 43 -> c <> 45 ->
+  datetime_from_unicode_iso (datetime_iso v ++ c :: junk) = VFault.
+Proof.
+  intros Hv. apply datetime_no_trailing_junk with (v := v). apply datetime_roundtrip. exact Hv.
 Qed.
